@@ -232,3 +232,28 @@ func checkSaleNotExpired(r *Run, pu *ssa.Function, creditSale ssa.Instruction) {
 	r.guardOb("C20.purchase", pu, "sale-price credit to the stored owner", func(fn *ssa.Function, ins ssa.Instruction) bool { return ins == creditSale }, g,
 		"an expired name that is still flagged on sale is sold at its old asking price: the lapsed owner is paid and no base price is charged")
 }
+
+// C19.nodowngrade: the missed-votes detection never replaces the record of a validator that is already frozen.
+func checkNoDowngrade(r *Run) {
+	p := r.P
+	fn := p.MustFn("(*identity.ValidatorStore).CheckMaliciousValidators")
+	sink := callsTo("(*data/evidence.EvidenceStore).CreateSuspiciousValidator")
+	notFrozen := &AnyGuard{Name: "not already frozen", Alts: []GuardSpec{
+		&EdgeGuard{Name: "no record in the frozen set", Classify: func(_ *Program, _ *ssa.Function, cond ssa.Value, _ *ssa.If) int {
+			return -boolCond(cond, func(y ssa.Value) bool {
+				e, ok := y.(*ssa.Extract)
+				if !ok || e.Index != 1 {
+					return false
+				}
+				lk, isLk := e.Tuple.(*ssa.Lookup)
+				return isLk && strings.HasSuffix(pathOf(lk.X).FieldString(), "maliciousValidators")
+			})
+		}},
+		boolCallG("record not frozen", false, []string{"(*data/evidence.LastValidatorHistory).IsFrozen"}),
+		boolCallG("validator not frozen", false, []string{"(*data/evidence.EvidenceStore).IsFrozenValidator"}),
+	}}
+	m := &MustPass{P: p, Scope: func(*ssa.Function) bool { return false }, Guard: notFrozen, IsSink: sink}
+	exposed := m.Exposed(fn)
+	r.Check(len(exposed) == 0 && m.Sinks > 0, "C19.nodowngrade", fname(fn), "a missed-votes record is created only for a validator that is not frozen yet", "CreateSuspiciousValidator behind 'no frozen record'",
+		"the missed-votes detection overwrites the record of a validator that is already frozen: a guilty (BYZANTINE_FAULT) record is replaced by a missed-votes record, which can be released at once instead of after the release time", p.pos(fn.Pos()))
+}
